@@ -142,6 +142,24 @@ def impl_env(extra=None):
     return env
 
 
+def impl_subprocess(module: str, cases: list, extra_env=None, timeout=1800) -> list:
+    """Observe the cases in a fresh interpreter (isolation of process-global state, other hash seeds)."""
+    import tempfile
+
+    with tempfile.TemporaryDirectory(dir='/var/tmp') as tmp:
+        src, dst = pathlib.Path(tmp) / 'in.json', pathlib.Path(tmp) / 'out.json'
+        src.write_text(json.dumps(cases))
+        rc, out = sh(
+            ['/venv/bin/python', '-W', 'ignore', '-m', 'harness.implrun', module, str(src), str(dst)],
+            timeout=timeout,
+            cwd=str(ROOT),
+            env=impl_env(extra_env),
+        )
+        if rc or not dst.exists():
+            raise RuntimeError(f'driver {module} failed rc={rc}: {out[-1500:]}')
+        return json.loads(dst.read_text())
+
+
 # ------------------------------------------------------------------------------------------------
 # Coq project
 # ------------------------------------------------------------------------------------------------
